@@ -478,6 +478,10 @@ func BackrefRegex(backrefCache *sync.Map, input string, groups []string) (*regex
 	)
 	pattern := backrefReplace.ReplaceAllStringFunc(input, func(s string) string {
 		var rematch = backrefReplace.FindStringSubmatch(s)
+		if len(rematch[1])%2 == 0 {
+			// An even number of backslashes: escaped backslashes followed by a digit, not a back-reference.
+			return s
+		}
 		n, nerr := strconv.ParseInt(rematch[2], 10, 64)
 		if nerr != nil {
 			err = nerr
